@@ -7,7 +7,7 @@ CONFIG = dict(
     namespaces=["MahfModel.Props.C15"],
     shrink_lists=["rules", "tree", "loop", "scope"],
     level="proof",
-    rule=("(1) logger: 20 log configurations (no LogConfig / empty / always / never / every-n / Not / scripted triggers incl. Err, "
+    rule=("(1) logger: 24 log configurations (no LogConfig / empty / always / never / every-n / Not / scripted triggers incl. Err, with_many, clear, "
           "duplicate entry names, sources missing) x 17 logger placements (before / inside / after a loop, twice in a loop, inside a "
           "scope, nested loops, two loops, no loop at all) x iteration counts 0..5, plus seeded random programs over "
           "Block/Loop/Scope/Logger/SetX/AddX with random rule sets (2500 quick / 20000 thorough); each is a REAL Configuration built "
@@ -18,7 +18,7 @@ CONFIG = dict(
           "serde_json, clone, component names; cfg-tpair: all pairs of (variant, bound) per template; cfg-pair: random trees of real "
           "components and conditions, copy with exactly one parameter value or one node changed (or none). Non-trivial = a logger case "
           "with at least one rule and a Logger in the tree, or any template/cfg case; distinct = distinct input."),
-    nontrivial=lambda inp: (inp.startswith("(lg (rules (r") and "(log)" in inp) or inp.startswith("(tl") or inp.startswith("(cfg"),
+    nontrivial=lambda inp: (inp.startswith("(lg (rules (") and "(log)" in inp) or inp.startswith(("(tl", "(cfg", "(fl")),
     trusted_base=[
         "serde_json / ciborium / ron back-ends are exercised (files written by the real code are decoded by the harness), not modelled",
         "HashMap iteration order of the per-step export maps is represented by 'any permutation' (export_order_independent)",
@@ -42,6 +42,7 @@ CONFIG.update(
     level_note=("proof, partial: the theorems are about the model. The serde back-ends (serde_json, ciborium, ron), erased_serde's trait "
                 "objects and HashMap ordering are exercised on the generated cases, not modelled: that every configuration serialises "
                 "(Ok) and that real exports differ for differing configurations is checked per case, not proved. JSON cannot carry "
-                "non-finite floats (serde_json writes null); the harness problems never produce them. Known finding: a Logger whose "
-                "rule fires where no loop counter exists panics (logger_noloop_violates)."),
+                "non-finite floats: serde_json writes null (modelled as jsonValue; known finding json_nonfinite_violates, theorem "
+                "json_export_partial for logs of JSON-representable values). Known finding: a Logger whose rule fires where no loop "
+                "counter exists panics (logger_noloop_violates)."),
 )
